@@ -573,7 +573,8 @@ def all_read_keys(index):
 
 # ------------------------------------------------------------------------------------------ C13.NOMUT
 
-MUTATING = {"update", "pop", "popitem", "clear", "setdefault", "__setitem__", "__delitem__"}
+MUTATING = {"update", "pop", "popitem", "clear", "setdefault", "__setitem__", "__delitem__", "append", "extend", "insert",
+            "remove", "sort", "reverse"}
 
 
 def param_mutations(fn, param):
